@@ -199,9 +199,12 @@ class MatrixExpression:
     def __rtruediv__(self, other: float | int) -> MatrixExpression:
         """Right scalar division: other / self."""
         rows, cols = self.shape
-        const = Constant(other)
+        numerators = _reflected_matrix_operand(other, rows, cols, "division")
         result_exprs = [
-            [BinaryOp(const, self._expressions[i][j], "/") for j in range(cols)]
+            [
+                BinaryOp(numerators[i][j], self._expressions[i][j], "/")
+                for j in range(cols)
+            ]
             for i in range(rows)
         ]
         return MatrixExpression(result_exprs)
@@ -264,6 +267,24 @@ class MatrixExpression:
             >>> s = (X * Y).sum()  # Hadamard product, then sum
         """
         return MatrixSum(self)
+
+
+def _reflected_matrix_operand(
+    other: float | int | NDArray | list, rows: int, cols: int, operation: str
+) -> list[list[Expression]]:
+    """Left operand of `other op matrix` as a rows x cols grid of constants."""
+    if isinstance(other, (list, tuple)):
+        other = np.asarray(other)
+    if isinstance(other, np.ndarray) and other.ndim > 0:
+        if other.shape != (rows, cols):
+            raise DimensionMismatchError(
+                operation=operation,
+                left_shape=other.shape,
+                right_shape=(rows, cols),
+            )
+        return [[Constant(other[i, j]) for j in range(cols)] for i in range(rows)]
+    const = Constant(other)
+    return [[const for _ in range(cols)] for _ in range(rows)]
 
 
 def _matrix_binary_op(
@@ -979,11 +1000,11 @@ class MatrixVariable:
         return _matrix_binary_op(self, other, "/")
 
     def __rtruediv__(self, other: float | int) -> MatrixExpression:
-        """Right division: scalar / X."""
+        """Right division: scalar / X (or array / X, element-wise)."""
         rows, cols = self.shape
-        const = Constant(other)
+        numerators = _reflected_matrix_operand(other, rows, cols, "division")
         result_exprs = [
-            [BinaryOp(const, self._variables[i][j], "/") for j in range(cols)]
+            [BinaryOp(numerators[i][j], self._variables[i][j], "/") for j in range(cols)]
             for i in range(rows)
         ]
         return MatrixExpression(result_exprs)
